@@ -31,6 +31,12 @@ pub enum BodyOp {
 pub enum TempThen {
 	Drop,
 	IntoChild,
+	/// by-value iteration (consumes the collection), every item dropped
+	IntoIter,
+	/// `for _ in &collection`, `child()`, `{:?}`, then drop
+	Inspect,
+	/// `child_mut()` / `AsMut` where the kind offers it, else as `Inspect`
+	Borrow,
 }
 
 #[derive(Clone, Debug, PartialEq, Eq, Hash, Serialize, Deserialize)]
